@@ -276,15 +276,15 @@ func scenarioBufferedLow(w *world) {
 		}
 	}
 	// underflow alarm of the library
-	w.logMu.Lock()
+	vsimHLock(&w.logMu)
 	for _, l := range w.logs {
 		if strings.Contains(l.msg, "released buffer size") {
-			w.logMu.Unlock()
+			vsimHUnlock(&w.logMu)
 			w.violate("C15", "underflow", "the library clamped a buffered amount below zero: %s", l.msg)
 			return
 		}
 	}
-	w.logMu.Unlock()
+	vsimHUnlock(&w.logMu)
 	x.finalChecks(mon)
 }
 
